@@ -417,7 +417,7 @@ type evidence struct {
 }
 
 func merge(id string, sp spec, tier string, seed uint64, results []*shardResult, wall float64) int {
-	known := harness.LoadKnown(filepath.Join(root, "KNOWN_FINDINGS.txt"), id)
+	known := harness.LoadKnownAll(root, id)
 	var evals, ntEvals int64
 	nt := map[uint64]struct{}{}
 	overrun := false
